@@ -25,14 +25,8 @@ package bufimagemodify
 //@ trusted pure interface bufconfig.ManagedOverrideRule
 //@ trusted pure interface bufimage.ImageFile
 //@ trusted pure interface bufparse.FullName
-//@ trusted func (internal.MarkSweeper) Mark(imageFile, path)
-//@   modifies ghost.markCount
-//@   ensures ghost.markCount == old(ghost.markCount) + 1
-//@ trusted func (internal.MarkSweeper) Sweep() (err)
-//@   modifies ghost.sweepCount, heap
-//@   ensures ghost.sweepCount == old(ghost.sweepCount) + 1
-//@ trusted func internal.NewMarkSweeper(image) (r)
-//@   ensures r != nil
+// The contracts of internal.MarkSweeper (Mark / Sweep: ghost counters, trusted at the interface) and of
+// internal.NewMarkSweeper (verified) are in internal/zz_verif_contracts.go.
 //
 // A rule matches a file by path-wise containment of its path and exact match of its module name.
 //@ pure func fileMatchConfig(imageFile, requiredPath, requiredFullName) (r)
@@ -65,9 +59,12 @@ package bufimagemodify
 //@   property C18
 //@   callback pure getOptionFunc
 //@   callback pure checkOptionSetFunc
-//@   modifies heap, ghost.cbCalls, ghost.cbArgs, ghost.cbArg0, ghost.cbArg1, ghost.cbArg2, ghost.cbArg3, ghost.markCount
+//@   modifies heap, ghost.cbCalls, ghost.cbArgs, ghost.cbArg0, ghost.cbArg1, ghost.cbArg2, ghost.cbArg3, ghost.markCount, ghost.n_markedPath
 //@   requires validRel(imageFile.Path()) && (forall i int :: 0 <= i && i < len(config.Disables()) ==> config.Disables()[i].Path() == "" || validRel(config.Disables()[i].Path())) && (forall i int :: 0 <= i && i < len(config.Overrides()) ==> config.Overrides()[i].Path() == "" || validRel(config.Overrides()[i].Path()))
+// the option kind and the source path belong to the same option (one row of the documented wiring table)
+//@   requires wiring: n_fileOptionWiring(fileOption, sourceLocationPath)
 //@   ensures disabled-untouched: isFileOptionDisabledForFile(imageFile, fileOption, config) ==> err == nil && ghost.cbCalls == old(ghost.cbCalls) && ghost.markCount == old(ghost.markCount)
+//@   ensures marks-given-path: ghost.markCount > old(ghost.markCount) ==> ghost.n_markedPath == sourceLocationPath
 //@   ensures marks-exactly-rewrites: ghost.markCount - old(ghost.markCount) == ghost.cbCalls[setOptionFunc] - old(ghost.cbCalls)[setOptionFunc] && ghost.markCount - old(ghost.markCount) <= 1 && ghost.markCount >= old(ghost.markCount)
 //@   ensures error-untouched: err != nil ==> ghost.cbCalls == old(ghost.cbCalls) && ghost.markCount == old(ghost.markCount)
 //
@@ -77,15 +74,253 @@ package bufimagemodify
 //@   callback pure checkOptionSetFunc
 //@   callback pure defaultOptionsFunc
 //@   callback pure valueFunc
-//@   modifies heap, ghost.cbCalls, ghost.cbArgs, ghost.cbArg0, ghost.cbArg1, ghost.cbArg2, ghost.cbArg3, ghost.markCount
+//@   modifies heap, ghost.cbCalls, ghost.cbArgs, ghost.cbArg0, ghost.cbArg1, ghost.cbArg2, ghost.cbArg3, ghost.markCount, ghost.n_markedPath
 //@   requires validRel(imageFile.Path()) && (forall i int :: 0 <= i && i < len(config.Disables()) ==> config.Disables()[i].Path() == "" || validRel(config.Disables()[i].Path())) && (forall i int :: 0 <= i && i < len(config.Overrides()) ==> config.Overrides()[i].Path() == "" || validRel(config.Overrides()[i].Path()))
+// the option kinds and the source path belong to the same option (one row of the documented wiring table)
+//@   requires wiring: n_stringOptionWiring(valueOption, prefixOption, suffixOption, sourceLocationPath)
 //@   ensures disabled-untouched: isFileOptionDisabledForFile(imageFile, valueOption, config) ==> err == nil && ghost.cbCalls == old(ghost.cbCalls) && ghost.markCount == old(ghost.markCount)
+//@   ensures marks-given-path: ghost.markCount > old(ghost.markCount) ==> ghost.n_markedPath == sourceLocationPath
 //@   ensures marks-exactly-rewrites: ghost.markCount - old(ghost.markCount) == ghost.cbCalls[setOptionFunc] - old(ghost.cbCalls)[setOptionFunc] && ghost.markCount - old(ghost.markCount) <= 1 && ghost.markCount >= old(ghost.markCount)
 //@   ensures error-untouched: err != nil ==> ghost.cbCalls == old(ghost.cbCalls) && ghost.markCount == old(ghost.markCount)
 //
-//@ trusted func stringOverrideFromConfig(imageFile, config, defaultOverrideOptions, valueFileOption, prefixFileOption, suffixFileOption) (r, err)
-//@   requires validRel(imageFile.Path())
+// stringOverrideFromConfig (verified against its body). V(i) / P(i) / S(i): override rule i matches the file and is a
+// value / prefix / suffix rule of this option (prefix and suffix rules count only if that option exists for the
+// modifier and is not disabled for the file). Documented precedence: the LAST matching override wins; a value
+// override replaces everything before it; a prefix (suffix) override clears the value and keeps the suffix (prefix)
+// in force; without overrides the modifier's defaults apply, minus a disabled prefix / suffix.
+//@ func stringOverrideFromConfig(imageFile, config, defaultOverrideOptions, valueFileOption, prefixFileOption, suffixFileOption) (r, err)
+//@   property C18
+//@   requires validRel(imageFile.Path()) && (forall i int :: 0 <= i && i < len(config.Disables()) ==> config.Disables()[i].Path() == "" || validRel(config.Disables()[i].Path())) && (forall i int :: 0 <= i && i < len(config.Overrides()) ==> config.Overrides()[i].Path() == "" || validRel(config.Overrides()[i].Path()))
 //@   ensures isFileOptionDisabledForFile(imageFile, valueFileOption, config) ==> err == nil && r.value == "" && r.prefix == "" && r.suffix == ""
+//@   ensures error-yields-empty: err != nil ==> r.value == "" && r.prefix == "" && r.suffix == ""
+//@   ensures no-override-no-error: (forall i int :: 0 <= i && i < len(config.Overrides()) ==> !(fileMatchConfig(imageFile, config.Overrides()[i].Path(), config.Overrides()[i].FullName()) && config.Overrides()[i].FileOption() == valueFileOption) && !(fileMatchConfig(imageFile, config.Overrides()[i].Path(), config.Overrides()[i].FullName()) && config.Overrides()[i].FileOption() != valueFileOption && config.Overrides()[i].FileOption() == prefixFileOption && !(prefixFileOption == bufconfig.FileOptionUnspecified || isFileOptionDisabledForFile(imageFile, prefixFileOption, config))) && !(fileMatchConfig(imageFile, config.Overrides()[i].Path(), config.Overrides()[i].FullName()) && config.Overrides()[i].FileOption() != valueFileOption && config.Overrides()[i].FileOption() != prefixFileOption && config.Overrides()[i].FileOption() == suffixFileOption && !(suffixFileOption == bufconfig.FileOptionUnspecified || isFileOptionDisabledForFile(imageFile, suffixFileOption, config)))) ==> err == nil
+//@   ensures ill-typed-override-rejected: !isFileOptionDisabledForFile(imageFile, valueFileOption, config) ==> ((err != nil) <==> (exists i int :: 0 <= i && i < len(config.Overrides()) && ((fileMatchConfig(imageFile, config.Overrides()[i].Path(), config.Overrides()[i].FullName()) && config.Overrides()[i].FileOption() == valueFileOption) || (fileMatchConfig(imageFile, config.Overrides()[i].Path(), config.Overrides()[i].FullName()) && config.Overrides()[i].FileOption() != valueFileOption && config.Overrides()[i].FileOption() == prefixFileOption && !(prefixFileOption == bufconfig.FileOptionUnspecified || isFileOptionDisabledForFile(imageFile, prefixFileOption, config))) || (fileMatchConfig(imageFile, config.Overrides()[i].Path(), config.Overrides()[i].FullName()) && config.Overrides()[i].FileOption() != valueFileOption && config.Overrides()[i].FileOption() != prefixFileOption && config.Overrides()[i].FileOption() == suffixFileOption && !(suffixFileOption == bufconfig.FileOptionUnspecified || isFileOptionDisabledForFile(imageFile, suffixFileOption, config)))) && !((config.Overrides()[i].Value() != nil && typeOf(config.Overrides()[i].Value()) == typeId(string)))))
+//@   ensures value-last-wins: err == nil && !isFileOptionDisabledForFile(imageFile, valueFileOption, config) ==> (forall i int :: 0 <= i && i < len(config.Overrides()) && (fileMatchConfig(imageFile, config.Overrides()[i].Path(), config.Overrides()[i].FullName()) && config.Overrides()[i].FileOption() == valueFileOption) && (forall j int :: i < j && j < len(config.Overrides()) ==> !(fileMatchConfig(imageFile, config.Overrides()[j].Path(), config.Overrides()[j].FullName()) && config.Overrides()[j].FileOption() == valueFileOption) && !(fileMatchConfig(imageFile, config.Overrides()[j].Path(), config.Overrides()[j].FullName()) && config.Overrides()[j].FileOption() != valueFileOption && config.Overrides()[j].FileOption() == prefixFileOption && !(prefixFileOption == bufconfig.FileOptionUnspecified || isFileOptionDisabledForFile(imageFile, prefixFileOption, config))) && !(fileMatchConfig(imageFile, config.Overrides()[j].Path(), config.Overrides()[j].FullName()) && config.Overrides()[j].FileOption() != valueFileOption && config.Overrides()[j].FileOption() != prefixFileOption && config.Overrides()[j].FileOption() == suffixFileOption && !(suffixFileOption == bufconfig.FileOptionUnspecified || isFileOptionDisabledForFile(imageFile, suffixFileOption, config)))) ==> r.value == cast(string, config.Overrides()[i].Value()) && r.prefix == "" && r.suffix == "")
+//@   ensures prefix-last-wins: err == nil && !isFileOptionDisabledForFile(imageFile, valueFileOption, config) ==> (forall i int :: 0 <= i && i < len(config.Overrides()) && (fileMatchConfig(imageFile, config.Overrides()[i].Path(), config.Overrides()[i].FullName()) && config.Overrides()[i].FileOption() != valueFileOption && config.Overrides()[i].FileOption() == prefixFileOption && !(prefixFileOption == bufconfig.FileOptionUnspecified || isFileOptionDisabledForFile(imageFile, prefixFileOption, config))) && (forall j int :: i < j && j < len(config.Overrides()) ==> !(fileMatchConfig(imageFile, config.Overrides()[j].Path(), config.Overrides()[j].FullName()) && config.Overrides()[j].FileOption() == valueFileOption) && !(fileMatchConfig(imageFile, config.Overrides()[j].Path(), config.Overrides()[j].FullName()) && config.Overrides()[j].FileOption() != valueFileOption && config.Overrides()[j].FileOption() == prefixFileOption && !(prefixFileOption == bufconfig.FileOptionUnspecified || isFileOptionDisabledForFile(imageFile, prefixFileOption, config)))) ==> r.prefix == cast(string, config.Overrides()[i].Value()) && r.value == "")
+//@   ensures suffix-last-wins: err == nil && !isFileOptionDisabledForFile(imageFile, valueFileOption, config) ==> (forall i int :: 0 <= i && i < len(config.Overrides()) && (fileMatchConfig(imageFile, config.Overrides()[i].Path(), config.Overrides()[i].FullName()) && config.Overrides()[i].FileOption() != valueFileOption && config.Overrides()[i].FileOption() != prefixFileOption && config.Overrides()[i].FileOption() == suffixFileOption && !(suffixFileOption == bufconfig.FileOptionUnspecified || isFileOptionDisabledForFile(imageFile, suffixFileOption, config))) && (forall j int :: i < j && j < len(config.Overrides()) ==> !(fileMatchConfig(imageFile, config.Overrides()[j].Path(), config.Overrides()[j].FullName()) && config.Overrides()[j].FileOption() == valueFileOption) && !(fileMatchConfig(imageFile, config.Overrides()[j].Path(), config.Overrides()[j].FullName()) && config.Overrides()[j].FileOption() != valueFileOption && config.Overrides()[j].FileOption() != prefixFileOption && config.Overrides()[j].FileOption() == suffixFileOption && !(suffixFileOption == bufconfig.FileOptionUnspecified || isFileOptionDisabledForFile(imageFile, suffixFileOption, config)))) ==> r.suffix == cast(string, config.Overrides()[i].Value()) && r.value == "")
+//@   ensures value-override-clears-prefix: err == nil && !isFileOptionDisabledForFile(imageFile, valueFileOption, config) ==> (forall i int :: 0 <= i && i < len(config.Overrides()) && (fileMatchConfig(imageFile, config.Overrides()[i].Path(), config.Overrides()[i].FullName()) && config.Overrides()[i].FileOption() == valueFileOption) && (forall j int :: i < j && j < len(config.Overrides()) ==> !(fileMatchConfig(imageFile, config.Overrides()[j].Path(), config.Overrides()[j].FullName()) && config.Overrides()[j].FileOption() == valueFileOption) && !(fileMatchConfig(imageFile, config.Overrides()[j].Path(), config.Overrides()[j].FullName()) && config.Overrides()[j].FileOption() != valueFileOption && config.Overrides()[j].FileOption() == prefixFileOption && !(prefixFileOption == bufconfig.FileOptionUnspecified || isFileOptionDisabledForFile(imageFile, prefixFileOption, config)))) ==> r.prefix == "")
+//@   ensures value-override-clears-suffix: err == nil && !isFileOptionDisabledForFile(imageFile, valueFileOption, config) ==> (forall i int :: 0 <= i && i < len(config.Overrides()) && (fileMatchConfig(imageFile, config.Overrides()[i].Path(), config.Overrides()[i].FullName()) && config.Overrides()[i].FileOption() == valueFileOption) && (forall j int :: i < j && j < len(config.Overrides()) ==> !(fileMatchConfig(imageFile, config.Overrides()[j].Path(), config.Overrides()[j].FullName()) && config.Overrides()[j].FileOption() == valueFileOption) && !(fileMatchConfig(imageFile, config.Overrides()[j].Path(), config.Overrides()[j].FullName()) && config.Overrides()[j].FileOption() != valueFileOption && config.Overrides()[j].FileOption() != prefixFileOption && config.Overrides()[j].FileOption() == suffixFileOption && !(suffixFileOption == bufconfig.FileOptionUnspecified || isFileOptionDisabledForFile(imageFile, suffixFileOption, config)))) ==> r.suffix == "")
+//@   ensures default-value: err == nil && !isFileOptionDisabledForFile(imageFile, valueFileOption, config) ==> ((forall i int :: 0 <= i && i < len(config.Overrides()) ==> !(fileMatchConfig(imageFile, config.Overrides()[i].Path(), config.Overrides()[i].FullName()) && config.Overrides()[i].FileOption() == valueFileOption) && !(fileMatchConfig(imageFile, config.Overrides()[i].Path(), config.Overrides()[i].FullName()) && config.Overrides()[i].FileOption() != valueFileOption && config.Overrides()[i].FileOption() == prefixFileOption && !(prefixFileOption == bufconfig.FileOptionUnspecified || isFileOptionDisabledForFile(imageFile, prefixFileOption, config))) && !(fileMatchConfig(imageFile, config.Overrides()[i].Path(), config.Overrides()[i].FullName()) && config.Overrides()[i].FileOption() != valueFileOption && config.Overrides()[i].FileOption() != prefixFileOption && config.Overrides()[i].FileOption() == suffixFileOption && !(suffixFileOption == bufconfig.FileOptionUnspecified || isFileOptionDisabledForFile(imageFile, suffixFileOption, config)))) ==> r.value == defaultOverrideOptions.value)
+//@   ensures default-prefix: err == nil && !isFileOptionDisabledForFile(imageFile, valueFileOption, config) ==> ((forall i int :: 0 <= i && i < len(config.Overrides()) ==> !(fileMatchConfig(imageFile, config.Overrides()[i].Path(), config.Overrides()[i].FullName()) && config.Overrides()[i].FileOption() == valueFileOption) && !(fileMatchConfig(imageFile, config.Overrides()[i].Path(), config.Overrides()[i].FullName()) && config.Overrides()[i].FileOption() != valueFileOption && config.Overrides()[i].FileOption() == prefixFileOption && !(prefixFileOption == bufconfig.FileOptionUnspecified || isFileOptionDisabledForFile(imageFile, prefixFileOption, config)))) ==> r.prefix == ite((prefixFileOption == bufconfig.FileOptionUnspecified || isFileOptionDisabledForFile(imageFile, prefixFileOption, config)), "", defaultOverrideOptions.prefix))
+//@   ensures default-suffix: err == nil && !isFileOptionDisabledForFile(imageFile, valueFileOption, config) ==> ((forall i int :: 0 <= i && i < len(config.Overrides()) ==> !(fileMatchConfig(imageFile, config.Overrides()[i].Path(), config.Overrides()[i].FullName()) && config.Overrides()[i].FileOption() == valueFileOption) && !(fileMatchConfig(imageFile, config.Overrides()[i].Path(), config.Overrides()[i].FullName()) && config.Overrides()[i].FileOption() != valueFileOption && config.Overrides()[i].FileOption() != prefixFileOption && config.Overrides()[i].FileOption() == suffixFileOption && !(suffixFileOption == bufconfig.FileOptionUnspecified || isFileOptionDisabledForFile(imageFile, suffixFileOption, config)))) ==> r.suffix == ite((suffixFileOption == bufconfig.FileOptionUnspecified || isFileOptionDisabledForFile(imageFile, suffixFileOption, config)), "", defaultOverrideOptions.suffix))
+//@   loop 0 invariant forall i int :: 0 <= i && i < $i && ((fileMatchConfig(imageFile, config.Overrides()[i].Path(), config.Overrides()[i].FullName()) && config.Overrides()[i].FileOption() == valueFileOption) || (fileMatchConfig(imageFile, config.Overrides()[i].Path(), config.Overrides()[i].FullName()) && config.Overrides()[i].FileOption() != valueFileOption && config.Overrides()[i].FileOption() == prefixFileOption && !ignorePrefix) || (fileMatchConfig(imageFile, config.Overrides()[i].Path(), config.Overrides()[i].FullName()) && config.Overrides()[i].FileOption() != valueFileOption && config.Overrides()[i].FileOption() != prefixFileOption && config.Overrides()[i].FileOption() == suffixFileOption && !ignoreSuffix)) ==> (config.Overrides()[i].Value() != nil && typeOf(config.Overrides()[i].Value()) == typeId(string))
+//@   loop 0 invariant ignorePrefix == (prefixFileOption == bufconfig.FileOptionUnspecified || isFileOptionDisabledForFile(imageFile, prefixFileOption, config)) && ignoreSuffix == (suffixFileOption == bufconfig.FileOptionUnspecified || isFileOptionDisabledForFile(imageFile, suffixFileOption, config))
+//@   loop 0 invariant (forall i int :: 0 <= i && i < $i && (fileMatchConfig(imageFile, config.Overrides()[i].Path(), config.Overrides()[i].FullName()) && config.Overrides()[i].FileOption() == valueFileOption) && (forall j int :: i < j && j < $i ==> !(fileMatchConfig(imageFile, config.Overrides()[j].Path(), config.Overrides()[j].FullName()) && config.Overrides()[j].FileOption() == valueFileOption) && !(fileMatchConfig(imageFile, config.Overrides()[j].Path(), config.Overrides()[j].FullName()) && config.Overrides()[j].FileOption() != valueFileOption && config.Overrides()[j].FileOption() == prefixFileOption && !ignorePrefix) && !(fileMatchConfig(imageFile, config.Overrides()[j].Path(), config.Overrides()[j].FullName()) && config.Overrides()[j].FileOption() != valueFileOption && config.Overrides()[j].FileOption() != prefixFileOption && config.Overrides()[j].FileOption() == suffixFileOption && !ignoreSuffix)) ==> overrideOptions.value == cast(string, config.Overrides()[i].Value()) && overrideOptions.prefix == "" && overrideOptions.suffix == "")
+//@   loop 0 invariant (forall i int :: 0 <= i && i < $i && (fileMatchConfig(imageFile, config.Overrides()[i].Path(), config.Overrides()[i].FullName()) && config.Overrides()[i].FileOption() != valueFileOption && config.Overrides()[i].FileOption() == prefixFileOption && !ignorePrefix) && (forall j int :: i < j && j < $i ==> !(fileMatchConfig(imageFile, config.Overrides()[j].Path(), config.Overrides()[j].FullName()) && config.Overrides()[j].FileOption() == valueFileOption) && !(fileMatchConfig(imageFile, config.Overrides()[j].Path(), config.Overrides()[j].FullName()) && config.Overrides()[j].FileOption() != valueFileOption && config.Overrides()[j].FileOption() == prefixFileOption && !ignorePrefix)) ==> overrideOptions.prefix == cast(string, config.Overrides()[i].Value()) && overrideOptions.value == "")
+//@   loop 0 invariant (forall i int :: 0 <= i && i < $i && (fileMatchConfig(imageFile, config.Overrides()[i].Path(), config.Overrides()[i].FullName()) && config.Overrides()[i].FileOption() != valueFileOption && config.Overrides()[i].FileOption() != prefixFileOption && config.Overrides()[i].FileOption() == suffixFileOption && !ignoreSuffix) && (forall j int :: i < j && j < $i ==> !(fileMatchConfig(imageFile, config.Overrides()[j].Path(), config.Overrides()[j].FullName()) && config.Overrides()[j].FileOption() == valueFileOption) && !(fileMatchConfig(imageFile, config.Overrides()[j].Path(), config.Overrides()[j].FullName()) && config.Overrides()[j].FileOption() != valueFileOption && config.Overrides()[j].FileOption() != prefixFileOption && config.Overrides()[j].FileOption() == suffixFileOption && !ignoreSuffix)) ==> overrideOptions.suffix == cast(string, config.Overrides()[i].Value()) && overrideOptions.value == "")
+//@   loop 0 invariant (forall i int :: 0 <= i && i < $i && (fileMatchConfig(imageFile, config.Overrides()[i].Path(), config.Overrides()[i].FullName()) && config.Overrides()[i].FileOption() == valueFileOption) && (forall j int :: i < j && j < $i ==> !(fileMatchConfig(imageFile, config.Overrides()[j].Path(), config.Overrides()[j].FullName()) && config.Overrides()[j].FileOption() == valueFileOption) && !(fileMatchConfig(imageFile, config.Overrides()[j].Path(), config.Overrides()[j].FullName()) && config.Overrides()[j].FileOption() != valueFileOption && config.Overrides()[j].FileOption() == prefixFileOption && !ignorePrefix)) ==> overrideOptions.prefix == "")
+//@   loop 0 invariant (forall i int :: 0 <= i && i < $i && (fileMatchConfig(imageFile, config.Overrides()[i].Path(), config.Overrides()[i].FullName()) && config.Overrides()[i].FileOption() == valueFileOption) && (forall j int :: i < j && j < $i ==> !(fileMatchConfig(imageFile, config.Overrides()[j].Path(), config.Overrides()[j].FullName()) && config.Overrides()[j].FileOption() == valueFileOption) && !(fileMatchConfig(imageFile, config.Overrides()[j].Path(), config.Overrides()[j].FullName()) && config.Overrides()[j].FileOption() != valueFileOption && config.Overrides()[j].FileOption() != prefixFileOption && config.Overrides()[j].FileOption() == suffixFileOption && !ignoreSuffix)) ==> overrideOptions.suffix == "")
+//@   loop 0 invariant ((forall i int :: 0 <= i && i < $i ==> !(fileMatchConfig(imageFile, config.Overrides()[i].Path(), config.Overrides()[i].FullName()) && config.Overrides()[i].FileOption() == valueFileOption) && !(fileMatchConfig(imageFile, config.Overrides()[i].Path(), config.Overrides()[i].FullName()) && config.Overrides()[i].FileOption() != valueFileOption && config.Overrides()[i].FileOption() == prefixFileOption && !ignorePrefix) && !(fileMatchConfig(imageFile, config.Overrides()[i].Path(), config.Overrides()[i].FullName()) && config.Overrides()[i].FileOption() != valueFileOption && config.Overrides()[i].FileOption() != prefixFileOption && config.Overrides()[i].FileOption() == suffixFileOption && !ignoreSuffix)) ==> overrideOptions.value == defaultOverrideOptions.value)
+//@   loop 0 invariant ((forall i int :: 0 <= i && i < $i ==> !(fileMatchConfig(imageFile, config.Overrides()[i].Path(), config.Overrides()[i].FullName()) && config.Overrides()[i].FileOption() == valueFileOption) && !(fileMatchConfig(imageFile, config.Overrides()[i].Path(), config.Overrides()[i].FullName()) && config.Overrides()[i].FileOption() != valueFileOption && config.Overrides()[i].FileOption() == prefixFileOption && !ignorePrefix)) ==> overrideOptions.prefix == ite(ignorePrefix, "", defaultOverrideOptions.prefix))
+//@   loop 0 invariant ((forall i int :: 0 <= i && i < $i ==> !(fileMatchConfig(imageFile, config.Overrides()[i].Path(), config.Overrides()[i].FullName()) && config.Overrides()[i].FileOption() == valueFileOption) && !(fileMatchConfig(imageFile, config.Overrides()[i].Path(), config.Overrides()[i].FullName()) && config.Overrides()[i].FileOption() != valueFileOption && config.Overrides()[i].FileOption() != prefixFileOption && config.Overrides()[i].FileOption() == suffixFileOption && !ignoreSuffix)) ==> overrideOptions.suffix == ite(ignoreSuffix, "", defaultOverrideOptions.suffix))
+//@   canary ensures err != nil
+//
+// The twelve file-option wrappers (table-style contracts). Each one is checked to pass ITS OWN option: the kind
+// triple and source path it hands to the generic modifier form a row of the documented wiring table (obligation
+// pre@modify*Option[wiring]), that row is the wrapper's own (own-kind-disabled-untouched, marks-own-path: the path is
+// [8, N] with N the field number of the option in descriptor.proto FileOptions), and the getter / setter / presence
+// check literals read and write the wrapper's own field of FileOptions (closure-post obligations).
+//@ func modifyJavaOuterClass(sweeper, imageFile, config, options) (err)
+//@   property C18
+//@   modifies heap, ghost.cbCalls, ghost.cbArgs, ghost.cbArg0, ghost.cbArg1, ghost.cbArg2, ghost.cbArg3, ghost.markCount, ghost.n_markedPath
+//@   requires validRel(imageFile.Path()) && (forall i int :: 0 <= i && i < len(config.Disables()) ==> config.Disables()[i].Path() == "" || validRel(config.Disables()[i].Path())) && (forall i int :: 0 <= i && i < len(config.Overrides()) ==> config.Overrides()[i].Path() == "" || validRel(config.Overrides()[i].Path()))
+//@   reveal n_stringOptionWiring
+//@   requires own-path-table: len(javaOuterClassnamePath) == 2 && javaOuterClassnamePath[0] == 8 && javaOuterClassnamePath[1] == 8
+//@   closure 2 ensures getter-own-field: r == options.GetJavaOuterClassname()
+//@   closure 3 ensures setter-own-field: options.JavaOuterClassname == proto.String(value)
+//@   closure 4 ensures check-own-field: r == (options != nil && options.JavaOuterClassname != nil)
+//@   ensures own-kind-disabled-untouched: isFileOptionDisabledForFile(imageFile, bufconfig.FileOptionJavaOuterClassname, config) ==> err == nil && ghost.markCount == old(ghost.markCount)
+//@   ensures marks-own-path: ghost.markCount > old(ghost.markCount) ==> len(ghost.n_markedPath) == 2 && ghost.n_markedPath[0] == 8 && ghost.n_markedPath[1] == 8
+//@   ensures at-most-one-mark: ghost.markCount >= old(ghost.markCount) && ghost.markCount <= old(ghost.markCount) + 1
+//@ table n_javaOuterClassnamePath {C18} of javaOuterClassnamePath
+//@   ensures descriptor-proto-number: len(javaOuterClassnamePath) == 2 && javaOuterClassnamePath[0] == 8 && javaOuterClassnamePath[1] == 8
+//
+//@ func modifyJavaPackage(sweeper, imageFile, config, options) (err)
+//@   property C18
+//@   modifies heap, ghost.cbCalls, ghost.cbArgs, ghost.cbArg0, ghost.cbArg1, ghost.cbArg2, ghost.cbArg3, ghost.markCount, ghost.n_markedPath
+//@   requires validRel(imageFile.Path()) && (forall i int :: 0 <= i && i < len(config.Disables()) ==> config.Disables()[i].Path() == "" || validRel(config.Disables()[i].Path())) && (forall i int :: 0 <= i && i < len(config.Overrides()) ==> config.Overrides()[i].Path() == "" || validRel(config.Overrides()[i].Path()))
+//@   reveal n_stringOptionWiring
+//@   requires own-path-table: len(javaPackagePath) == 2 && javaPackagePath[0] == 8 && javaPackagePath[1] == 1
+//@   closure 1 ensures getter-own-field: r == options.GetJavaPackage()
+//@   closure 2 ensures setter-own-field: options.JavaPackage == proto.String(value)
+//@   closure 3 ensures check-own-field: r == (options != nil && options.JavaPackage != nil)
+//@   ensures own-kind-disabled-untouched: isFileOptionDisabledForFile(imageFile, bufconfig.FileOptionJavaPackage, config) ==> err == nil && ghost.markCount == old(ghost.markCount)
+//@   ensures marks-own-path: ghost.markCount > old(ghost.markCount) ==> len(ghost.n_markedPath) == 2 && ghost.n_markedPath[0] == 8 && ghost.n_markedPath[1] == 1
+//@   ensures at-most-one-mark: ghost.markCount >= old(ghost.markCount) && ghost.markCount <= old(ghost.markCount) + 1
+//@ table n_javaPackagePath {C18} of javaPackagePath
+//@   ensures descriptor-proto-number: len(javaPackagePath) == 2 && javaPackagePath[0] == 8 && javaPackagePath[1] == 1
+//
+//@ func modifyGoPackage(sweeper, imageFile, config, options) (err)
+//@   property C18
+//@   modifies heap, ghost.cbCalls, ghost.cbArgs, ghost.cbArg0, ghost.cbArg1, ghost.cbArg2, ghost.cbArg3, ghost.markCount, ghost.n_markedPath
+//@   requires validRel(imageFile.Path()) && (forall i int :: 0 <= i && i < len(config.Disables()) ==> config.Disables()[i].Path() == "" || validRel(config.Disables()[i].Path())) && (forall i int :: 0 <= i && i < len(config.Overrides()) ==> config.Overrides()[i].Path() == "" || validRel(config.Overrides()[i].Path()))
+//@   reveal n_stringOptionWiring
+//@   requires own-path-table: len(goPackagePath) == 2 && goPackagePath[0] == 8 && goPackagePath[1] == 11
+//@   closure 2 ensures getter-own-field: r == options.GetGoPackage()
+//@   closure 3 ensures setter-own-field: options.GoPackage == proto.String(value)
+//@   closure 4 ensures check-own-field: r == (options != nil && options.GoPackage != nil)
+//@   ensures own-kind-disabled-untouched: isFileOptionDisabledForFile(imageFile, bufconfig.FileOptionGoPackage, config) ==> err == nil && ghost.markCount == old(ghost.markCount)
+//@   ensures marks-own-path: ghost.markCount > old(ghost.markCount) ==> len(ghost.n_markedPath) == 2 && ghost.n_markedPath[0] == 8 && ghost.n_markedPath[1] == 11
+//@   ensures at-most-one-mark: ghost.markCount >= old(ghost.markCount) && ghost.markCount <= old(ghost.markCount) + 1
+//@ table n_goPackagePath {C18} of goPackagePath
+//@   ensures descriptor-proto-number: len(goPackagePath) == 2 && goPackagePath[0] == 8 && goPackagePath[1] == 11
+//
+//@ func modifyObjcClassPrefix(sweeper, imageFile, config, options) (err)
+//@   property C18
+//@   modifies heap, ghost.cbCalls, ghost.cbArgs, ghost.cbArg0, ghost.cbArg1, ghost.cbArg2, ghost.cbArg3, ghost.markCount, ghost.n_markedPath
+//@   requires validRel(imageFile.Path()) && (forall i int :: 0 <= i && i < len(config.Disables()) ==> config.Disables()[i].Path() == "" || validRel(config.Disables()[i].Path())) && (forall i int :: 0 <= i && i < len(config.Overrides()) ==> config.Overrides()[i].Path() == "" || validRel(config.Overrides()[i].Path()))
+//@   reveal n_stringOptionWiring
+//@   requires own-path-table: len(objcClassPrefixPath) == 2 && objcClassPrefixPath[0] == 8 && objcClassPrefixPath[1] == 36
+//@   closure 2 ensures getter-own-field: r == options.GetObjcClassPrefix()
+//@   closure 3 ensures setter-own-field: options.ObjcClassPrefix == proto.String(value)
+//@   closure 4 ensures check-own-field: r == (options != nil && options.ObjcClassPrefix != nil)
+//@   ensures own-kind-disabled-untouched: isFileOptionDisabledForFile(imageFile, bufconfig.FileOptionObjcClassPrefix, config) ==> err == nil && ghost.markCount == old(ghost.markCount)
+//@   ensures marks-own-path: ghost.markCount > old(ghost.markCount) ==> len(ghost.n_markedPath) == 2 && ghost.n_markedPath[0] == 8 && ghost.n_markedPath[1] == 36
+//@   ensures at-most-one-mark: ghost.markCount >= old(ghost.markCount) && ghost.markCount <= old(ghost.markCount) + 1
+//@ table n_objcClassPrefixPath {C18} of objcClassPrefixPath
+//@   ensures descriptor-proto-number: len(objcClassPrefixPath) == 2 && objcClassPrefixPath[0] == 8 && objcClassPrefixPath[1] == 36
+//
+//@ func modifyCsharpNamespace(sweeper, imageFile, config, options) (err)
+//@   property C18
+//@   modifies heap, ghost.cbCalls, ghost.cbArgs, ghost.cbArg0, ghost.cbArg1, ghost.cbArg2, ghost.cbArg3, ghost.markCount, ghost.n_markedPath
+//@   requires validRel(imageFile.Path()) && (forall i int :: 0 <= i && i < len(config.Disables()) ==> config.Disables()[i].Path() == "" || validRel(config.Disables()[i].Path())) && (forall i int :: 0 <= i && i < len(config.Overrides()) ==> config.Overrides()[i].Path() == "" || validRel(config.Overrides()[i].Path()))
+//@   reveal n_stringOptionWiring
+//@   requires own-path-table: len(csharpNamespacePath) == 2 && csharpNamespacePath[0] == 8 && csharpNamespacePath[1] == 37
+//@   closure 2 ensures getter-own-field: r == options.GetCsharpNamespace()
+//@   closure 3 ensures setter-own-field: options.CsharpNamespace == proto.String(value)
+//@   closure 4 ensures check-own-field: r == (options != nil && options.CsharpNamespace != nil)
+//@   ensures own-kind-disabled-untouched: isFileOptionDisabledForFile(imageFile, bufconfig.FileOptionCsharpNamespace, config) ==> err == nil && ghost.markCount == old(ghost.markCount)
+//@   ensures marks-own-path: ghost.markCount > old(ghost.markCount) ==> len(ghost.n_markedPath) == 2 && ghost.n_markedPath[0] == 8 && ghost.n_markedPath[1] == 37
+//@   ensures at-most-one-mark: ghost.markCount >= old(ghost.markCount) && ghost.markCount <= old(ghost.markCount) + 1
+//@ table n_csharpNamespacePath {C18} of csharpNamespacePath
+//@   ensures descriptor-proto-number: len(csharpNamespacePath) == 2 && csharpNamespacePath[0] == 8 && csharpNamespacePath[1] == 37
+//
+//@ func modifyPhpNamespace(sweeper, imageFile, config, options) (err)
+//@   property C18
+//@   modifies heap, ghost.cbCalls, ghost.cbArgs, ghost.cbArg0, ghost.cbArg1, ghost.cbArg2, ghost.cbArg3, ghost.markCount, ghost.n_markedPath
+//@   requires validRel(imageFile.Path()) && (forall i int :: 0 <= i && i < len(config.Disables()) ==> config.Disables()[i].Path() == "" || validRel(config.Disables()[i].Path())) && (forall i int :: 0 <= i && i < len(config.Overrides()) ==> config.Overrides()[i].Path() == "" || validRel(config.Overrides()[i].Path()))
+//@   reveal n_stringOptionWiring
+//@   requires own-path-table: len(phpNamespacePath) == 2 && phpNamespacePath[0] == 8 && phpNamespacePath[1] == 41
+//@   closure 2 ensures getter-own-field: r == options.GetPhpNamespace()
+//@   closure 3 ensures setter-own-field: options.PhpNamespace == proto.String(value)
+//@   closure 4 ensures check-own-field: r == (options != nil && options.PhpNamespace != nil)
+//@   ensures own-kind-disabled-untouched: isFileOptionDisabledForFile(imageFile, bufconfig.FileOptionPhpNamespace, config) ==> err == nil && ghost.markCount == old(ghost.markCount)
+//@   ensures marks-own-path: ghost.markCount > old(ghost.markCount) ==> len(ghost.n_markedPath) == 2 && ghost.n_markedPath[0] == 8 && ghost.n_markedPath[1] == 41
+//@   ensures at-most-one-mark: ghost.markCount >= old(ghost.markCount) && ghost.markCount <= old(ghost.markCount) + 1
+//@ table n_phpNamespacePath {C18} of phpNamespacePath
+//@   ensures descriptor-proto-number: len(phpNamespacePath) == 2 && phpNamespacePath[0] == 8 && phpNamespacePath[1] == 41
+//
+//@ func modifyPhpMetadataNamespace(sweeper, imageFile, config, options) (err)
+//@   property C18
+//@   modifies heap, ghost.cbCalls, ghost.cbArgs, ghost.cbArg0, ghost.cbArg1, ghost.cbArg2, ghost.cbArg3, ghost.markCount, ghost.n_markedPath
+//@   requires validRel(imageFile.Path()) && (forall i int :: 0 <= i && i < len(config.Disables()) ==> config.Disables()[i].Path() == "" || validRel(config.Disables()[i].Path())) && (forall i int :: 0 <= i && i < len(config.Overrides()) ==> config.Overrides()[i].Path() == "" || validRel(config.Overrides()[i].Path()))
+//@   reveal n_stringOptionWiring
+//@   requires own-path-table: len(phpMetadataNamespacePath) == 2 && phpMetadataNamespacePath[0] == 8 && phpMetadataNamespacePath[1] == 44
+//@   closure 2 ensures getter-own-field: r == options.GetPhpMetadataNamespace()
+//@   closure 3 ensures setter-own-field: options.PhpMetadataNamespace == proto.String(value)
+//@   closure 4 ensures check-own-field: r == (options != nil && options.PhpMetadataNamespace != nil)
+//@   ensures own-kind-disabled-untouched: isFileOptionDisabledForFile(imageFile, bufconfig.FileOptionPhpMetadataNamespace, config) ==> err == nil && ghost.markCount == old(ghost.markCount)
+//@   ensures marks-own-path: ghost.markCount > old(ghost.markCount) ==> len(ghost.n_markedPath) == 2 && ghost.n_markedPath[0] == 8 && ghost.n_markedPath[1] == 44
+//@   ensures at-most-one-mark: ghost.markCount >= old(ghost.markCount) && ghost.markCount <= old(ghost.markCount) + 1
+//@ table n_phpMetadataNamespacePath {C18} of phpMetadataNamespacePath
+//@   ensures descriptor-proto-number: len(phpMetadataNamespacePath) == 2 && phpMetadataNamespacePath[0] == 8 && phpMetadataNamespacePath[1] == 44
+//
+//@ func modifyRubyPackage(sweeper, imageFile, config, options) (err)
+//@   property C18
+//@   modifies heap, ghost.cbCalls, ghost.cbArgs, ghost.cbArg0, ghost.cbArg1, ghost.cbArg2, ghost.cbArg3, ghost.markCount, ghost.n_markedPath
+//@   requires validRel(imageFile.Path()) && (forall i int :: 0 <= i && i < len(config.Disables()) ==> config.Disables()[i].Path() == "" || validRel(config.Disables()[i].Path())) && (forall i int :: 0 <= i && i < len(config.Overrides()) ==> config.Overrides()[i].Path() == "" || validRel(config.Overrides()[i].Path()))
+//@   reveal n_stringOptionWiring
+//@   requires own-path-table: len(rubyPackagePath) == 2 && rubyPackagePath[0] == 8 && rubyPackagePath[1] == 45
+//@   closure 2 ensures getter-own-field: r == options.GetRubyPackage()
+//@   closure 3 ensures setter-own-field: options.RubyPackage == proto.String(value)
+//@   closure 4 ensures check-own-field: r == (options != nil && options.RubyPackage != nil)
+//@   ensures own-kind-disabled-untouched: isFileOptionDisabledForFile(imageFile, bufconfig.FileOptionRubyPackage, config) ==> err == nil && ghost.markCount == old(ghost.markCount)
+//@   ensures marks-own-path: ghost.markCount > old(ghost.markCount) ==> len(ghost.n_markedPath) == 2 && ghost.n_markedPath[0] == 8 && ghost.n_markedPath[1] == 45
+//@   ensures at-most-one-mark: ghost.markCount >= old(ghost.markCount) && ghost.markCount <= old(ghost.markCount) + 1
+//@ table n_rubyPackagePath {C18} of rubyPackagePath
+//@   ensures descriptor-proto-number: len(rubyPackagePath) == 2 && rubyPackagePath[0] == 8 && rubyPackagePath[1] == 45
+//
+//@ func modifyCcEnableArenas(sweeper, imageFile, config, options) (err)
+//@   property C18
+//@   modifies heap, ghost.cbCalls, ghost.cbArgs, ghost.cbArg0, ghost.cbArg1, ghost.cbArg2, ghost.cbArg3, ghost.markCount, ghost.n_markedPath
+//@   requires validRel(imageFile.Path()) && (forall i int :: 0 <= i && i < len(config.Disables()) ==> config.Disables()[i].Path() == "" || validRel(config.Disables()[i].Path())) && (forall i int :: 0 <= i && i < len(config.Overrides()) ==> config.Overrides()[i].Path() == "" || validRel(config.Overrides()[i].Path()))
+//@   reveal n_fileOptionWiring
+//@   requires own-path-table: len(ccEnableArenasPath) == 2 && ccEnableArenasPath[0] == 8 && ccEnableArenasPath[1] == 31
+//@   closure 0 ensures getter-own-field: r == options.GetCcEnableArenas()
+//@   closure 1 ensures setter-own-field: options.CcEnableArenas == proto.Bool(value)
+//@   closure 2 ensures check-own-field: r == (options != nil && options.CcEnableArenas != nil)
+//@   ensures own-kind-disabled-untouched: isFileOptionDisabledForFile(imageFile, bufconfig.FileOptionCcEnableArenas, config) ==> err == nil && ghost.markCount == old(ghost.markCount)
+//@   ensures marks-own-path: ghost.markCount > old(ghost.markCount) ==> len(ghost.n_markedPath) == 2 && ghost.n_markedPath[0] == 8 && ghost.n_markedPath[1] == 31
+//@   ensures at-most-one-mark: ghost.markCount >= old(ghost.markCount) && ghost.markCount <= old(ghost.markCount) + 1
+//@ table n_ccEnableArenasPath {C18} of ccEnableArenasPath
+//@   ensures descriptor-proto-number: len(ccEnableArenasPath) == 2 && ccEnableArenasPath[0] == 8 && ccEnableArenasPath[1] == 31
+//
+//@ func modifyJavaMultipleFiles(sweeper, imageFile, config, options) (err)
+//@   property C18
+//@   modifies heap, ghost.cbCalls, ghost.cbArgs, ghost.cbArg0, ghost.cbArg1, ghost.cbArg2, ghost.cbArg3, ghost.markCount, ghost.n_markedPath
+//@   requires validRel(imageFile.Path()) && (forall i int :: 0 <= i && i < len(config.Disables()) ==> config.Disables()[i].Path() == "" || validRel(config.Disables()[i].Path())) && (forall i int :: 0 <= i && i < len(config.Overrides()) ==> config.Overrides()[i].Path() == "" || validRel(config.Overrides()[i].Path()))
+//@   reveal n_fileOptionWiring
+//@   requires own-path-table: len(javaMultipleFilesPath) == 2 && javaMultipleFilesPath[0] == 8 && javaMultipleFilesPath[1] == 10
+//@   closure 0 ensures getter-own-field: r == options.GetJavaMultipleFiles()
+//@   closure 1 ensures setter-own-field: options.JavaMultipleFiles == proto.Bool(value)
+//@   closure 2 ensures check-own-field: r == (options != nil && options.JavaMultipleFiles != nil)
+//@   ensures own-kind-disabled-untouched: isFileOptionDisabledForFile(imageFile, bufconfig.FileOptionJavaMultipleFiles, config) ==> err == nil && ghost.markCount == old(ghost.markCount)
+//@   ensures marks-own-path: ghost.markCount > old(ghost.markCount) ==> len(ghost.n_markedPath) == 2 && ghost.n_markedPath[0] == 8 && ghost.n_markedPath[1] == 10
+//@   ensures at-most-one-mark: ghost.markCount >= old(ghost.markCount) && ghost.markCount <= old(ghost.markCount) + 1
+//@ table n_javaMultipleFilesPath {C18} of javaMultipleFilesPath
+//@   ensures descriptor-proto-number: len(javaMultipleFilesPath) == 2 && javaMultipleFilesPath[0] == 8 && javaMultipleFilesPath[1] == 10
+//
+//@ func modifyJavaStringCheckUtf8(sweeper, imageFile, config, options) (err)
+//@   property C18
+//@   modifies heap, ghost.cbCalls, ghost.cbArgs, ghost.cbArg0, ghost.cbArg1, ghost.cbArg2, ghost.cbArg3, ghost.markCount, ghost.n_markedPath
+//@   requires validRel(imageFile.Path()) && (forall i int :: 0 <= i && i < len(config.Disables()) ==> config.Disables()[i].Path() == "" || validRel(config.Disables()[i].Path())) && (forall i int :: 0 <= i && i < len(config.Overrides()) ==> config.Overrides()[i].Path() == "" || validRel(config.Overrides()[i].Path()))
+//@   reveal n_fileOptionWiring
+//@   requires own-path-table: len(javaStringCheckUtf8Path) == 2 && javaStringCheckUtf8Path[0] == 8 && javaStringCheckUtf8Path[1] == 27
+//@   closure 0 ensures getter-own-field: r == options.GetJavaStringCheckUtf8()
+//@   closure 1 ensures setter-own-field: options.JavaStringCheckUtf8 == proto.Bool(value)
+//@   closure 2 ensures check-own-field: r == (options != nil && options.JavaStringCheckUtf8 != nil)
+//@   ensures own-kind-disabled-untouched: isFileOptionDisabledForFile(imageFile, bufconfig.FileOptionJavaStringCheckUtf8, config) ==> err == nil && ghost.markCount == old(ghost.markCount)
+//@   ensures marks-own-path: ghost.markCount > old(ghost.markCount) ==> len(ghost.n_markedPath) == 2 && ghost.n_markedPath[0] == 8 && ghost.n_markedPath[1] == 27
+//@   ensures at-most-one-mark: ghost.markCount >= old(ghost.markCount) && ghost.markCount <= old(ghost.markCount) + 1
+//@ table n_javaStringCheckUtf8Path {C18} of javaStringCheckUtf8Path
+//@   ensures descriptor-proto-number: len(javaStringCheckUtf8Path) == 2 && javaStringCheckUtf8Path[0] == 8 && javaStringCheckUtf8Path[1] == 27
+//
+//@ func modifyOptimizeFor(sweeper, imageFile, config, options) (err)
+//@   property C18
+//@   modifies heap, ghost.cbCalls, ghost.cbArgs, ghost.cbArg0, ghost.cbArg1, ghost.cbArg2, ghost.cbArg3, ghost.markCount, ghost.n_markedPath
+//@   requires validRel(imageFile.Path()) && (forall i int :: 0 <= i && i < len(config.Disables()) ==> config.Disables()[i].Path() == "" || validRel(config.Disables()[i].Path())) && (forall i int :: 0 <= i && i < len(config.Overrides()) ==> config.Overrides()[i].Path() == "" || validRel(config.Overrides()[i].Path()))
+//@   reveal n_fileOptionWiring
+//@   requires own-path-table: len(optimizeForPath) == 2 && optimizeForPath[0] == 8 && optimizeForPath[1] == 9
+//@   closure 0 ensures getter-own-field: r == options.GetOptimizeFor()
+//@   closure 1 ensures setter-own-field: options.OptimizeFor == value.Enum()
+//@   closure 2 ensures check-own-field: r == (options != nil && options.OptimizeFor != nil)
+//@   ensures own-kind-disabled-untouched: isFileOptionDisabledForFile(imageFile, bufconfig.FileOptionOptimizeFor, config) ==> err == nil && ghost.markCount == old(ghost.markCount)
+//@   ensures marks-own-path: ghost.markCount > old(ghost.markCount) ==> len(ghost.n_markedPath) == 2 && ghost.n_markedPath[0] == 8 && ghost.n_markedPath[1] == 9
+//@   ensures at-most-one-mark: ghost.markCount >= old(ghost.markCount) && ghost.markCount <= old(ghost.markCount) + 1
+//@ table n_optimizeForPath {C18} of optimizeForPath
+//@   ensures descriptor-proto-number: len(optimizeForPath) == 2 && optimizeForPath[0] == 8 && optimizeForPath[1] == 9
+//
+// The thirteenth wrapper, modifyJsType (field option): it touches nothing unless some js_type override matches the
+// file, nothing when a file-wide disable rule (for js_type or for everything) matches, nothing in a well-known-type
+// file, and every source path it marks is <field path> + [8, 6] (FieldDescriptorProto.options = 8, FieldOptions.jstype = 6).
+//@ trusted pure interface protoreflect.FullName
+//@ table n_jsTypeSubPath {C18} of jsTypeSubPath
+//@   ensures descriptor-proto-numbers: len(jsTypeSubPath) == 2 && jsTypeSubPath[0] == 8 && jsTypeSubPath[1] == 6
+//@ func modifyJsType(sweeper, imageFile, config, options) (err)
+//@   property C18
+//@   modifies heap, ghost.cbCalls, ghost.cbArgs, ghost.cbArg0, ghost.cbArg1, ghost.cbArg2, ghost.cbArg3, ghost.markCount, ghost.n_markedPath
+//@   requires validRel(imageFile.Path()) && (forall i int :: 0 <= i && i < len(config.Disables()) ==> config.Disables()[i].Path() == "" || validRel(config.Disables()[i].Path())) && (forall i int :: 0 <= i && i < len(config.Overrides()) ==> config.Overrides()[i].Path() == "" || validRel(config.Overrides()[i].Path()))
+//@   requires own-path-table: len(jsTypeSubPath) == 2 && jsTypeSubPath[0] == 8 && jsTypeSubPath[1] == 6
+//@   closure 0 requires override.Path() == "" || validRel(override.Path())
+//@   closure 0 ensures override-selected: r == (override.FieldOption() == bufconfig.FieldOptionJSType && fileMatchConfig(imageFile, override.Path(), override.FullName()))
+//@   closure 1 requires disable.Path() == "" || validRel(disable.Path())
+//@   closure 1 ensures disable-selected: r == ((disable.FieldOption() == bufconfig.FieldOptionJSType || (disable.FieldOption() == bufconfig.FieldOptionUnspecified && disable.FileOption() == bufconfig.FileOptionUnspecified)) && fileMatchConfig(imageFile, disable.Path(), disable.FullName()))
+//@   ensures no-jstype-override-untouched: (forall i int :: 0 <= i && i < len(config.Overrides()) ==> !(config.Overrides()[i].FieldOption() == bufconfig.FieldOptionJSType && fileMatchConfig(imageFile, config.Overrides()[i].Path(), config.Overrides()[i].FullName()))) ==> err == nil && ghost.markCount == old(ghost.markCount)
+//@   ensures file-disabled-untouched: (exists i int :: 0 <= i && i < len(config.Disables()) && (config.Disables()[i].FieldOption() == bufconfig.FieldOptionJSType || (config.Disables()[i].FieldOption() == bufconfig.FieldOptionUnspecified && config.Disables()[i].FileOption() == bufconfig.FileOptionUnspecified)) && fileMatchConfig(imageFile, config.Disables()[i].Path(), config.Disables()[i].FullName()) && config.Disables()[i].FieldName() == "") ==> err == nil && ghost.markCount == old(ghost.markCount)
+//@   ensures wkt-untouched: datawkt.Exists(imageFile.Path()) ==> err == nil && ghost.markCount == old(ghost.markCount)
+//@   ensures marks-jstype-paths-only: ghost.markCount > old(ghost.markCount) ==> len(ghost.n_markedPath) >= 2 && ghost.n_markedPath[len(ghost.n_markedPath) - 2] == 8 && ghost.n_markedPath[len(ghost.n_markedPath) - 1] == 6
+//@   loop 1 invariant forall j int :: 0 <= j && j < $i ==> disableRules[j].FieldName() != ""
+//@   closure 2 invariant ghost.markCount > old(ghost.markCount) ==> len(ghost.n_markedPath) >= 2 && ghost.n_markedPath[len(ghost.n_markedPath) - 2] == 8 && ghost.n_markedPath[len(ghost.n_markedPath) - 1] == 6
 //
 // With managed mode disabled nothing is called at all; otherwise no modifier ever sees a well-known-type file.
 //@ func modifyImage(image, config, modifyFuncs, options) (err)
